@@ -1503,7 +1503,84 @@ VARIANTS += [
      ('\t\tmaxAttempts:        verifyOpts.MaxSignatureAttempts,\n', '\t\tmaxAttempts:        verifyOpts.MaxSignatureAttempts + 1,\n')),
  _vo('value-object-success-not-reported', 'flagged(early-exit/stop-after-success)', _VO_CUT,
      ('\t\tif verified {\n\t\t\t// early break on success\n\t\t\treturn errDoneVerification\n\t\t}\n', '\t\tif verified {\n\t\t\tcontinue\n\t\t}\n')),
- _vo('value-object-copied-for-callback', 'flagged(',
+ _vo('value-object-copied-for-callback', 'flagged(bound/counter)',
      ('\t\treturn attempts.processPage(', '\t\tsnapshot := attempts\n\t\treturn snapshot.processPage('),
      why='the callback works on a copy of the value-held object: the counter of the outer function never moves'),
+]
+
+# member "value receiver": the accessor takes the state struct by value — its call loads the whole object (a copy)
+_VR_FN = _VO_LIMIT_FN.replace('func (a *signatureAttempts) limitError()', 'func (a signatureAttempts) limitError()')
+VARIANTS += [
+ _vo('shape-value-receiver-accessor', 'silent', fn=_VR_FN,
+     why='limitError has a value receiver: the outer function and the page worker call it on a copy of the whole object'),
+ _vo('shape-value-receiver-accessor-cut-index', 'silent', _VO_CUT, fn=_VR_FN),
+ _wm('shape-whole-object-logged', 'silent',
+     ('\t// If there\'s no signature associated with the reference\n\tif attempts.processed == 0 {\n', '\tlogger.Debugf("signature evaluation state: %+v", *attempts)\n\n\t// If there\'s no signature associated with the reference\n\tif attempts.processed == 0 {\n'),
+     why='a copy of the whole state object is formatted into a log line'),
+ _vo('value-object-decides-on-stale-copy', 'flagged(result/success-exit)',
+     ('\terrTooMany := attempts.limitError()\n', '\terrTooMany := attempts.limitError()\n\tbefore := attempts\n'),
+     (_ACC_FLAG_USE, '\tif !before.succeeded && !attempts.succeeded || before.succeeded {\n'),
+     why='a copy of the object taken before the listing takes part in the success decision'),
+ _vo('value-object-returns-outcomes-of-copy', 'flagged(result/success-exit)',
+     ('\terrTooMany := attempts.limitError()\n', '\terrTooMany := attempts.limitError()\n\tbefore := attempts\n'),
+     ('\t// Verification Succeeded\n\treturn artifactDescriptor, attempts.outcomes, nil\n', '\t// Verification Succeeded\n\treturn artifactDescriptor, before.outcomes, nil\n')),
+ _vo('page-worker-counts-on-copy', 'flagged(bound/counter)', ('\t\ta.processed++\n', '\t\tmine := *a\n\t\tmine.processed++\n'),
+     why='the page worker counts on a copy of the object: the shared counter never moves'),
+]
+
+# member "result object built by a constructor function": the composite literal of the state object moves into a
+# module function that returns its address
+_CT_LIT = _WM_NEW[_WM_NEW.index('\tattempts := &signatureAttempts{\n'):_WM_NEW.index('\t// get signature manifests\n')]
+_CT_CALL = '\tattempts := newSignatureAttempts(verifier, repo, artifactRef, artifactDescriptor, opts, verifyOpts.MaxSignatureAttempts)\n\n'
+_CT_FN = '''// newSignatureAttempts sets up the state of one signature evaluation.
+func newSignatureAttempts(verifier Verifier, repo registry.Repository, ref string, target ocispec.Descriptor, opts VerifierVerifyOptions, limit int) *signatureAttempts {
+	return &signatureAttempts{
+		verifier:           verifier,
+		repo:               repo,
+		artifactRef:        ref,
+		artifactDescriptor: target,
+		opts:               opts,
+		maxAttempts:        limit,
+		errLimitExceeded:   ErrorVerificationFailed{Msg: fmt.Sprintf("signature evaluation stopped. The configured limit of %d signatures to verify per artifact exceeded", limit)},
+		failures:           []error{ErrorVerificationFailed{}},
+	}
+}
+'''
+_CT_FN_STEPS = '''func newSignatureAttempts(verifier Verifier, repo registry.Repository, ref string, target ocispec.Descriptor, opts VerifierVerifyOptions, limit int) *signatureAttempts {
+	a := new(signatureAttempts)
+	a.verifier, a.repo = verifier, repo
+	a.artifactRef, a.artifactDescriptor = ref, target
+	a.opts = opts
+	a.maxAttempts = limit
+	a.processed = 0
+	a.succeeded = false
+	a.errLimitExceeded = ErrorVerificationFailed{Msg: fmt.Sprintf("signature evaluation stopped. The configured limit of %d signatures to verify per artifact exceeded", limit)}
+	a.failures = []error{ErrorVerificationFailed{}}
+	return a
+}
+'''
+
+def _ct(name, expect, *more, **kw):
+    fn = kw.pop('fn', _CT_FN)
+    call = kw.pop('call', _CT_CALL)
+    return _wm(name, expect, *([(_CT_LIT, call), (_ACC_ANCHOR, fn + '\n' + _ACC_ANCHOR)] + list(more)), **kw)
+
+VARIANTS += [
+ _ct('shape-ctor-state-object', 'silent', why='attempts := newSignatureAttempts(…): the literal lives in a constructor function'),
+ _ct('shape-ctor-state-object-stepwise', 'silent', fn=_CT_FN_STEPS, why='the constructor fills a new(T) field by field, initial values spelled out'),
+ _ct('shape-ctor-state-object-cut-index', 'silent', _VO_CUT, why='constructor + page cut + index loop'),
+ _ct('shape-ctor-state-object-accessor', 'silent', (_ACC_FLAG_USE, '\tif !attempts.verified() {\n'), (_ACC_ANCHOR, _VO_FLAG_FN + '\n' + _ACC_ANCHOR)),
+ _ct('ctor-limit-raised', 'flagged(bound/guard)', fn=_CT_FN.replace('maxAttempts:        limit,', 'maxAttempts:        limit + 1,')),
+ _ct('ctor-limit-raised-cut', 'flagged(bound/guard)', _VO_CUT, fn=_CT_FN.replace('maxAttempts:        limit,', 'maxAttempts:        limit + 1,')),
+ _ct('ctor-called-with-other-limit', 'flagged(bound/guard)', call=_CT_CALL.replace('verifyOpts.MaxSignatureAttempts)', '2*verifyOpts.MaxSignatureAttempts)')),
+ _ct('ctor-called-with-unresolved-descriptor', 'flagged(callback/verify-resolved-descriptor)', call=_CT_CALL.replace('artifactRef, artifactDescriptor, opts', 'artifactRef, ocispec.Descriptor{Digest: artifactDescriptor.Digest}, opts')),
+ _ct('ctor-swaps-descriptor', 'flagged(callback/verify-resolved-descriptor)', fn=_CT_FN.replace('artifactDescriptor: target,', 'artifactDescriptor: ocispec.Descriptor{MediaType: target.MediaType},')),
+ _ct('ctor-presets-flag', 'flagged(early-exit/flag-only-on-success)', fn=_CT_FN.replace('\t\tmaxAttempts:        limit,\n', '\t\tmaxAttempts:        limit,\n\t\tsucceeded:          limit > 100,\n')),
+ _ct('ctor-presets-flag-true', 'flagged(early-exit/flag-only-on-success)', fn=_CT_FN_STEPS.replace('a.succeeded = false', 'a.succeeded = true')),
+ _ct('ctor-presets-counter', 'flagged(bound/counter)', fn=_CT_FN_STEPS.replace('a.processed = 0', 'a.processed = -limit')),
+ _ct('ctor-keeps-object', 'flagged(', fn='var allAttempts []*signatureAttempts\n\n' + _CT_FN_STEPS.replace('\treturn a\n', '\tallAttempts = append(allAttempts, a)\n\treturn a\n'),
+     why='the constructor keeps a second way to reach the object'),
+ _ct('ctor-returns-shared-object', 'flagged(', fn='var theAttempts signatureAttempts\n\n' + _CT_FN_STEPS.replace('\ta := new(signatureAttempts)\n', '\ta := &theAttempts\n'),
+     why='no fresh object: state survives from one verification to the next'),
+ _ct('ctor-returns-either-object', 'flagged(', fn='var theAttempts signatureAttempts\n\n' + _CT_FN_STEPS.replace('\treturn a\n', '\tif limit > 50 {\n\t\treturn &theAttempts\n\t}\n\treturn a\n')),
 ]
